@@ -138,3 +138,12 @@ def as_collection(rng, values, p=0.5):
     if k == 'bag':
         return Bag(values)
     return tuple(values)
+
+
+# ---- deprecated spellings ---------------------------------------------------------------------------------------------------------
+def deprecated_call(fn, *a, **kw):
+    """Calls a deprecated camelCase alias with its DeprecationWarning silenced (the alias is the same operation)."""
+    import warnings
+    with warnings.catch_warnings():
+        warnings.simplefilter('ignore')
+        return fn(*a, **kw)
